@@ -883,6 +883,79 @@ def shallow_and_reset_stream(ctx, res):
                             dict(case, later_ports=list(later.ports), later_names=dict(later.names)))
 
 
+def copydepth_stream(ctx, res, n):
+    """random histories on a real `ListField(ListField(IntField()))` value — copies (`copy()`, `+ []`, `* 1`, `list(...)` of the proxy
+    re-assigned is NOT used: only operations whose result is typed), new inner lists, numbers appended to inner lists through any
+    outer list that references them, last entries dropped — against the model of Cinco/Proxy/CopyDepth.lean (theorems in
+    Props/C17c.lean): after every operation what a reader sees through every outer list object is what the model says, i.e.
+    what the built-in list would show (a copy is one level deep)"""
+    import cincoconfig as cc
+    rng = ctx.rng
+    reqs, pend = [], []
+    for i in range(n):
+        s = cc.Schema()
+        s.ll = cc.ListField(cc.ListField(cc.IntField()), default=lambda: [])
+        cfg = s()
+        objs = {0: cfg.ll}               # model identity -> real object (outer and inner lists alike)
+        kinds = {0: "outer"}
+        builtin = {0: []}                # the same history on built-in lists
+        nxt = 1
+        ops, obs = [], []
+        how_cycle = ["copy", "concat", "times"]
+        for _ in range(rng.randint(3, 10)):
+            outers = [k for k, v in kinds.items() if v == "outer"]
+            inners = [k for k, v in kinds.items() if v == "inner"]
+            r = rng.random()
+            if r < 0.3:
+                a = rng.choice(outers)
+                how = rng.choice(how_cycle)
+                objs[nxt] = objs[a].copy() if how == "copy" else objs[a] + [] if how == "concat" else objs[a] * 1
+                builtin[nxt] = builtin[a].copy() if how == "copy" else builtin[a] + [] if how == "concat" else builtin[a] * 1
+                kinds[nxt] = "outer"
+                nxt += 1
+                ops.append({"op": "copy", "a": a, "how": how})
+            elif r < 0.55 or not inners:
+                a = rng.choice(outers)
+                objs[a].append([])
+                fresh = []
+                builtin[a].append(fresh)
+                objs[nxt] = objs[a][-1]
+                builtin[nxt] = fresh
+                kinds[nxt] = "inner"
+                nxt += 1
+                ops.append({"op": "appendNew", "a": a})
+            elif r < 0.9:
+                b = rng.choice(inners)
+                k = rng.randint(0, 99)
+                objs[b].append(k)
+                builtin[b].append(k)
+                ops.append({"op": "appendAtom", "b": b, "n": k})
+            else:
+                a = rng.choice(outers)
+                if len(objs[a]):
+                    del objs[a][-1]
+                    del builtin[a][-1]
+                else:
+                    objs[a][:] = []          # nothing to drop: the model's dropLast of an empty list is a no-op as well
+                ops.append({"op": "dropLast", "a": a})
+            obs.append([{"id": k, "view": [list(x) for x in objs[k]]} for k in sorted(kinds) if kinds[k] == "outer"])
+            ref = [{"id": k, "view": [list(x) for x in builtin[k]]} for k in sorted(kinds) if kinds[k] == "outer"]
+            if obs[-1] != ref:
+                res.violate("C17:copy-depth", "after a history of copies and in-place edits a typed list of lists does not show what the built-in lists show",
+                            {"stream": "copydepth", "ops": ops, "typed": obs[-1], "builtin": ref})
+                break
+        case = {"stream": "copydepth", "ops": ops}
+        res.case(stable(ops) if any(o["op"] == "copy" for o in ops) and any(o["op"] == "appendAtom" for o in ops) else None, kind="copydepth", sample=case if i < 2 else None)
+        reqs.append({"cmd": "copydepth.run", "ops": ops})
+        pend.append((case, obs))
+    replies = ctx.model(reqs)
+    if replies is not None:
+        for (case, obs), r in zip(pend, replies):
+            res.traces += 1
+            if "ok" not in r or r["ok"][:len(obs)] != obs:
+                res.disagree("C17.copydepth", case, impl=obs, model=r.get("ok", r))
+
+
 def run(ctx, n_quick=400, n_thorough=20000):
     res = Result()
     guard(res, "C17", list_stream, ctx, res, ctx.n(n_quick, n_thorough))
@@ -890,6 +963,7 @@ def run(ctx, n_quick=400, n_thorough=20000):
     guard(res, "C17", dict_forms_stream, ctx, res)
     guard(res, "C17", string_iterable_stream, ctx, res)
     guard(res, "C17", shallow_and_reset_stream, ctx, res)
+    guard(res, "C17", copydepth_stream, ctx, res, ctx.n(150, 5000))
     return res
 
 
